@@ -338,6 +338,13 @@ func (g *vfGen) genC19() {
 			}
 		case 5: // no marker at all
 			var es []vfEntry
+			if g.intn(3) == 0 {
+				// a stored first entry without extra field whose content starts with bytes that mean something at
+				// that place to other readers of the format (the JAR extra-field id 0xCAFE, a class file, a manifest)
+				heads := [][]byte{{0xFE, 0xCA, 0, 0}, {0xCA, 0xFE, 0xBA, 0xBE}, []byte("Manifest-Version: 1.0\n"), []byte("mimetype"), []byte("word/"), {0xFE, 0xCA}}
+				b := append(append([]byte{}, heads[g.intn(len(heads))]...), g.body(20+g.intn(60))...)
+				es = append(es, vfEntry{name: other[g.intn(len(other))], body: b, stored: true, nodesc: g.intn(2) == 0})
+			}
 			for j := 0; j < 1+g.intn(8); j++ {
 				pool := other
 				if g.intn(3) == 0 {
